@@ -51,6 +51,28 @@ Definition nonnil {A} (l : list A) : bool := match l with [] => false | _ => tru
 Definition c03_wf (c : ctx) : bool :=
   part_ok (c_header c) && part_ok (c_trailer c) &&
   forallb (fun md => part_ok (md_meta md) && nonnil (md_type md)) (c_msgs c).
+(* ------------------------------------------------------------------ the pseudo entries of the message table
+   The generated table ctx._bme that Message::factory searches with the received MsgType text also
+   holds two rows that are not messages: "header" and "trailer", whose creator is
+   reinterpret_cast<Message *>(new header / new trailer) (Minst::_gen::_make<T, R>; F8MetaCntx takes
+   _mk_hdr / _mk_trl from them).  A received 35=header / 35=trailer makes factory create such an
+   object and call Message::decode on it (msg->_header->... on a MessageBase that has no _header):
+   type confusion, observed as heap-buffer-overflow reads or runaway loops.  The codec model's message
+   table (c_msgs, from the metadata dump) lists real messages only, so the wrapper below adds the
+   lookup of the two pseudo rows in front of Codec.Decode.factory. *)
+Definition pseudo_header : list N := [104; 101; 97; 100; 101; 114].          (* "header" *)
+Definition pseudo_trailer : list N := [116; 114; 97; 105; 108; 101; 114].    (* "trailer" *)
+Definition is_pseudo (mtype : list N) : bool := list_eqb mtype pseudo_header || list_eqb mtype pseudo_trailer.
+Definition site_pseudo_entry : N := 10.
+(* does factory find a pseudo row for this input?  (the MsgType text extract_header delivers) *)
+Definition c03_pseudo (cp : caps) (bytes : list N) : bool :=
+  match extract_header bytes (cap_htag cp) (cap_hval cp) (cap_len cp) (cap_mtype cp) with
+  | Ok (hlen, _, mtype) => negb (hlen =? 0) && is_pseudo (cstr mtype)
+  | _ => false
+  end.
+Definition c03_factory (c : ctx) (cp : caps) (bytes : list N) (no_chksum permissive : bool) : res message :=
+  if c03_pseudo cp bytes then OOB site_pseudo_entry else factory c cp bytes no_chksum permissive.
+
 (* ------------------------------------------------------------------ results *)
 Definition safe {A} (r : res A) : Prop := match r with Ok _ | Exc _ => True | _ => False end.
 (* ------------------------------------------------------------------ fast_atoi<int> UB (F09)
@@ -234,15 +256,16 @@ Definition msg_dt_ub (c : ctx) (m : message) : bool :=
    DHang   decode_group appends empty elements for ever
    DUb     fast_atoi<int> UB while building a field (message otherwise accepted)
    DUbDate UB in a date/time parser (parse_decimal / time_to_epoch) while building a field
+   DPseudo the MsgType text names a pseudo row of the message table (type confusion in factory)
    DFuel   model artefact *)
-Inductive dclass := DOk (m : message) | DExc (e : exc) | DHdr | DDec | DOther (s : N) | DHang | DUb | DUbDate | DFuel.
+Inductive dclass := DOk (m : message) | DExc (e : exc) | DHdr | DDec | DOther (s : N) | DHang | DUb | DUbDate | DPseudo | DFuel.
 
 Definition is_xe_site (s : N) : bool := (s =? site_tag_write) || (s =? site_val_write) || (s =? site_read).
 
 (* ubsan = true: the sanitized build (UB sites abort the run); false: the build without sanitizers,
    where fast_atoi<int> wraps exactly as fast_atoi_i32 does (DECW cases of the tie) *)
 Definition dec_class_gen (ubsan : bool) (c : ctx) (bytes : list N) (no_chksum permissive : bool) : dclass :=
-  match factory c real_caps bytes no_chksum permissive with
+  match c03_factory c real_caps bytes no_chksum permissive with
   | Ok m => if ubsan && msg_ub c m then DUb else if ubsan && msg_dt_ub c m then DUbDate else DOk m
   | Exc e => DExc e
   | OOB s =>
@@ -252,7 +275,7 @@ Definition dec_class_gen (ubsan : bool) (c : ctx) (bytes : list N) (no_chksum pe
         | OOB _ => DHdr
         | _ => DDec
         end
-      else DOther s
+      else if s =? site_pseudo_entry then DPseudo else DOther s
   | Diverge => DHang
   | Fuel => DFuel
   end.
